@@ -174,6 +174,10 @@ func (c *Ctx) BuildDriver(race bool) (string, error) {
 		args = append(args, "-race")
 	}
 	outp := filepath.Join(c.Scratch, name)
+	if os.Getenv("VERIF_COVER") != "" {
+		// diagnostic only: statement coverage of mkdb under the workloads
+		args = append(args, "-cover", "-coverpkg=verif/harness/cmd/vdriver,github.com/mk6i/mkdb/storage,github.com/mk6i/mkdb/engine,github.com/mk6i/mkdb/sql")
+	}
 	if repo := os.Getenv("VERIF_REPO"); repo != "" && repo != "/repo" {
 		// build against another checkout of mkdb (used to try seeded changes
 		// in a scratch worktree without touching /repo)
@@ -438,6 +442,9 @@ func RunScript(bin, cwd string, ops []proto.Op, timeout time.Duration, env ...st
 	cmd := exec.Command(bin, sp)
 	cmd.Dir = cwd
 	cmd.Env = append(os.Environ(), env...)
+	if cd := os.Getenv("VERIF_COVER"); cd != "" {
+		cmd.Env = append(cmd.Env, "GOCOVERDIR="+cd)
+	}
 	var stderr bytes.Buffer
 	cmd.Stderr = &limitWriter{w: &stderr, n: 1 << 16}
 	stdout, err := cmd.StdoutPipe()
